@@ -987,11 +987,14 @@ bool port_is_enabled(const Port* port, char* loc, size_t loc_size,
                 concatenate the location string
              */
             int loclen = strlen(loc);
+            // the copy must hold loc, "../" and the enabling port, however
+            // little room the caller's buffer has behind loc
+            loc_size = loclen + 3 + strlen(enable_port) + 1;
             STACKALLOC(char, loc_copy, loc_size);
             strcpy(loc_copy, loc); // TODO: clang says strcpy is insecure
             if(relative_to_parent)
-                strncat(loc_copy, "../", loc_size - loclen - 1);
-            strncat(loc_copy, enable_port, loc_size - loclen - 3 - 1);
+                strcat(loc_copy, "../");
+            strcat(loc_copy, enable_port);
 
             char* collapsed_loc = Ports::collapsePath(loc_copy);
             loc_size -= (collapsed_loc - loc_copy);
